@@ -42,11 +42,14 @@ def check(ctx):
     ctx.run_engine(seq, ['--outdir', '/verif/out', '--deadline', '20' if quick else '300'] + ([] if quick else ['--thorough']), label='ht_seq', timeout=900)
     exe = build_conc(ctx)
     if quick:
-        conc(ctx, exe, TWO, 2, 40, 'conc2_b2')
-        conc(ctx, exe, TWO_BIG + THREE, 1, 20, 'conc3_b1')
+        conc(ctx, exe, TWO, 2, 30, 'conc2_b2')
+        conc(ctx, exe, TWO_BIG + THREE, 1, 12, 'conc3_b1')
     else:
-        conc(ctx, exe, TWO + TWO_BIG, 3, 500, 'conc2_b3')
-        conc(ctx, exe, THREE, 2, 500, 'conc3_b2')
+        # one invocation per script so that every script gets its own share of the thorough budget (the engine's deadline is per invocation)
+        for s in TWO + TWO_BIG:
+            conc(ctx, exe, [s], 3, 100, 'b3_' + s)
+        for s in THREE:
+            conc(ctx, exe, [s], 2, 100, 'b2_' + s)
     return ctx.finish(RULE, ASSUME)
 
 
